@@ -109,6 +109,9 @@ def run_case(kind, payload):
             emit = getattr(cdd.sqlalchemy.emit, kind)
             kw = {"name": "T"} if kind == "sqlalchemy_table" else {"class_name": "T"}
             return to_code(emit(ir, **kw))
+        if kind == "json_to_sql":
+            ir = cdd.json_schema.parse.json_schema(copy.deepcopy(payload))
+            return to_code(cdd.sqlalchemy.emit.sqlalchemy_table(ir, name="T"))
         if kind == "json_schema_parse":
             return canon_ir(cdd.json_schema.parse.json_schema(copy.deepcopy(payload)))
         if kind == "infer_imports":
@@ -189,6 +192,10 @@ def cases(seed, n):
             from collections import OrderedDict
             ir2["params"] = OrderedDict(ir2["params"])
             out.append((r.choice(["sqlalchemy", "sqlalchemy_table", "sqlalchemy_hybrid"]), ir2))
+            out.append(("json_to_sql", {"$id": "https://x/T.schema.json", "$schema": "https://json-schema.org/draft/2020-12/schema", "description": "A thing.", "type": "object",
+                                        "properties": {"vals": {"description": "values", "type": "array", "items": {"type": r.choice(["number", "integer", "boolean", "object", "string"])}},
+                                                       "alt": {"description": "either", "anyOf": [{"type": r.choice(["number", "integer", "boolean"])}, {"type": "string"}]},
+                                                       "k": {"description": "[PK] a key", "type": "integer"}}, "required": ["k"]}))
             out.append(("json_schema_parse", {"$id": "https://x/T.schema.json", "$schema": "https://json-schema.org/draft/2020-12/schema", "description": "A thing.",
                                                 "type": "object", "properties": {"items_": {"description": "things", "type": "array", "items": {"type": r.choice([u, "string", "integer"])}},
                                                                                    "k": {"description": "a key", "type": "string"}}, "required": ["k"]}))
@@ -199,7 +206,20 @@ def main():
     seed, n, mode = int(sys.argv[1]), int(sys.argv[2]), sys.argv[3]
     cs = cases(seed, n)
     res = {}
-    if mode == "plain":
+    if mode in ("plain", "preimport"):
+        if mode == "preimport":
+            # what else was loaded earlier in the process must not matter: import every public module of the package first
+            import importlib
+            import pkgutil
+
+            import cdd
+
+            for m in pkgutil.walk_packages(cdd.__path__, "cdd."):
+                if ".tests" not in m.name and not m.name.endswith("__main__"):
+                    try:
+                        importlib.import_module(m.name)
+                    except Exception:  # noqa
+                        pass
         for i, (k, p) in enumerate(cs):
             res[str(i)] = run_case(k, p)
     else:
